@@ -13,6 +13,11 @@ use std::net::{IpAddr, SocketAddr};
 use std::sync::Arc;
 use std::time::Duration;
 use tokio::io::AsyncWriteExt;
+#[cfg(passage_verif)]
+use crate::verif::net::{TcpListener, TcpStream};
+#[cfg(passage_verif)]
+use tokio::net::ToSocketAddrs;
+#[cfg(not(passage_verif))]
 use tokio::net::{TcpListener, TcpStream, ToSocketAddrs};
 use tokio::select;
 use tokio::time::{Instant, timeout};
